@@ -422,8 +422,12 @@ impl<'tcx> Dumper<'tcx> {
     }
 
     fn indirect_value(&self, alloc_id: mir::interpret::AllocId, offset: usize, ty: Ty<'tcx>) -> J {
+        let a = self.tcx.global_alloc(alloc_id).unwrap_memory().inner();
+        self.alloc_value(a, offset, ty)
+    }
+
+    fn alloc_value(&self, a: &mir::interpret::Allocation, offset: usize, ty: Ty<'tcx>) -> J {
         let tcx = self.tcx;
-        let a = tcx.global_alloc(alloc_id).unwrap_memory().inner();
         let bytes = a.inspect_with_uninit_and_ptr_outside_interpreter(0..a.len());
         let te = TypingEnv::fully_monomorphized();
         if let ty::Array(elem, _) = ty.kind() {
@@ -814,14 +818,22 @@ impl<'tcx> Dumper<'tcx> {
         let tcx = self.tcx;
         let ty = tcx.type_of(did).instantiate_identity().skip_norm_wip();
         let te = TypingEnv::post_analysis(tcx, did);
-        J::obj(vec![
+        let freeze = ty.is_freeze(tcx, te);
+        let mut o = vec![
             ("path", J::s(self.path(did))),
             ("ty", J::s(format!("{}", ty))),
             ("mutable", J::Bool(tcx.is_mutable_static(did))),
             ("thread_local", J::Bool(tcx.is_thread_local_static(did))),
-            ("freeze", J::Bool(ty.is_freeze(tcx, te))),
+            ("freeze", J::Bool(freeze)),
             ("span", self.span(tcx.def_span(did))),
-        ])
+        ];
+        // an immutable static without interior mutability is a named constant with an address: dump its initialiser
+        if freeze && !tcx.is_mutable_static(did) && !tcx.is_thread_local_static(did) {
+            if let Ok(alloc) = tcx.eval_static_initializer(did) {
+                o.push(("value", self.alloc_value(alloc.inner(), 0, ty)));
+            }
+        }
+        J::obj(o)
     }
 
     fn dump_adts(&self) -> Vec<J> {
